@@ -29,6 +29,22 @@ def probEventOpt (M : Model) (ν : BaseValues) (e : List (Var × Option Iv)) : R
 def EventHolds (M : Model) (ν : BaseValues) (u : NoisePoint) (e : List (Var × Option Iv)) : Prop :=
   ∀ p ∈ e, ∀ i, p.2 = some i → solve M u (worldOf ν p.1.ivs) p.1.name = ivValue ν i
 
+/-! ### y0's reading of self-intervened variables
+
+The paper's Algorithm 1 (and y0's own ID*) treat `Y_y = y` as a tautology that is removed from the event and `Y_y = y'`
+as impossible.  y0's SIMPLIFY (and the pinned test `test_simplify_y`) instead take `Y_y` to be "the same variable as `Y`":
+`Y_{..y..} = y` is read as the event `Y = y` in the world without interventions (`Y_{..y..} = y'` stays impossible).
+`y0Read` rewrites an event accordingly; `none` means "impossible by effectiveness". -/
+
+def y0ReadItem (p : Var × Option Iv) : Option (Var × Option Iv) :=
+  if p.1.ivs.any (fun i => i.name == p.1.name) then
+    match p.2 with
+    | none => some ({ name := p.1.name }, none)
+    | some i => if p.1.ivs.any (fun j => decide (j = i)) then some ({ name := p.1.name }, some i) else none
+  else some p
+
+def y0Read (e : List (Var × Option Iv)) : Option (List (Var × Option Iv)) := e.mapM y0ReadItem
+
 /-! ### value of a factorised expression -/
 
 /-- `Σ` over all assignments of values below `card` to the names `xs`; the assignment is handed to the summand as an
